@@ -351,6 +351,9 @@ func (cr *chainRun) settleWithin(settleBudget time.Duration) (bool, string) {
 		if ns.S.Now() > ns.LastChange+settleBudget {
 			return false, why
 		}
+		if ns.RunDone && ns.S.Now() > ns.RunDoneAt+2*time.Second {
+			return false, why + " (Run has returned)"
+		}
 		step := time.Second
 		if ns.S.Now() > ns.LastChange+2*time.Minute {
 			step = 10 * time.Second
